@@ -313,7 +313,9 @@ def ods_rows(source_ods_path, sheet=1):
         location.advance_sheet()
     for table_row in _ods_table_rows(table_element):
         row = []
-        for table_cell in _findall(table_row, "table:table-cell", namespaces=_OOO_NAMESPACES):
+        for table_cell in table_row:
+            if table_cell.tag not in (_TABLE_PREFIX + "table-cell", _TABLE_PREFIX + "covered-table-cell"):
+                continue
             repeated_text = table_cell.attrib.get(_NUMBER_COLUMNS_REPEATED, "1")
             try:
                 repeated_count = int(repeated_text)
